@@ -14,12 +14,18 @@ every theorem below is proved for an arbitrary commutative ring `K` (a field of 
 centroid is divided out) — hence for `ℚ`, on which the driver runs the model against the real code, and
 for `ℝ`, which the doubles of the real code approximate.
 
+`Model/RotationAngles.lean` mirrors the objective `orient_template` hands to the optimiser (`target_function`,
+`_norm_matrix`, the built / not-built reference of step 3): `C06_objective_*`.
+
 Partial / trusted (see DESIGN.md, C06): `np.sin/np.cos` satisfy `c² + s² = 1` only to rounding; the optimiser
 (`scipy.optimize.minimize`, random start) is an arbitrary oracle for the angles — the theorems hold for
 every angle triple it can return.
 -/
 import PolyplyVerif.Model.Rotation
 import PolyplyVerif.Proofs.Rotation
+import PolyplyVerif.Model.RotationAngles
+import PolyplyVerif.Proofs.RotationAngles
+import Mathlib.Algebra.Order.Field.Basic
 import Mathlib.Algebra.Field.Basic
 import Mathlib.Algebra.CharZero.Defs
 import Mathlib.Tactic.FieldSimp
@@ -153,5 +159,56 @@ example : (placeInitCoords (1 : Rat) [("T", [("A", ⟨1, 0, 0⟩)])]
     [⟨true, "T", ⟨0, 0, 0⟩, 1, [⟨0, "A"⟩], ⟨1, 0, 1, 0, 1, 0⟩⟩,
      ⟨false, "T", ⟨5, 5, 5⟩, 2, [⟨1, "A"⟩], ⟨1, 0, 1, 0, 1, 0⟩⟩]).isSome := by
   simp [placeInitCoords, placeRes, klookup, placeAtoms, orientTemplate, rotateXYZ, tlookup]
+
+/-! ### what `orient_template` asks the optimiser to minimise (`Model/RotationAngles.lean`) -/
+
+/-- **The objective does not depend on the order of the neighbours / connecting edges**: permuting the list of
+`(template atom, reference point)` pairs leaves `target_function` unchanged, for every angle triple (any
+commutative ring).  So the orientation problem handed to the optimiser is a function of the SET of bonds to
+neighbours, not of networkx' neighbour order. -/
+theorem C06_objective_perm (a : Angles K) {pairs pairs' : List (V3 K × V3 K)} (h : pairs.Perm pairs') :
+    objective a pairs = objective a pairs' :=
+  Proofs.RotationAngles.objective_perm a h
+
+example : objective (⟨1, 0, 1, 0, 0, 1⟩ : Angles Rat) [(⟨1, 0, 0⟩, ⟨0, 2, 0⟩), (⟨0, 0, 1⟩, ⟨1, 1, 1⟩)] = 3 ∧
+    objective (⟨1, 0, 1, 0, 0, 1⟩ : Angles Rat) [(⟨0, 0, 1⟩, ⟨1, 1, 1⟩), (⟨1, 0, 0⟩, ⟨0, 2, 0⟩)] = 3 := by
+  decide +kernel
+
+/-- **An isolated residue has a constant objective**: with no bonded neighbour there is no pair, the objective is
+0 for every angle triple — every orientation is optimal, whatever the optimiser returns is a proper rotation
+(`C06_proper`), and the statement of C06 does not depend on which one. -/
+theorem C06_objective_isolated (a : Angles K) : objective a ([] : List (V3 K × V3 K)) = 0 :=
+  Proofs.RotationAngles.objective_nil a
+
+/-- **For a proper rotation only the alignment term depends on the angles**:
+`‖R·opt − ref‖² = ‖opt‖² + ‖ref‖² − 2·(R·opt)·ref`, so minimising the objective is maximising
+`Σ (R·opt_k)·ref_k` — the bonded atoms are turned towards the neighbours. -/
+theorem C06_objective_alignment (a : Angles K) (hx : a.cx * a.cx + a.sx * a.sx = 1)
+    (hy : a.cy * a.cy + a.sy * a.sy = 1) (hz : a.cz * a.cz + a.sz * a.sz = 1) (p : V3 K × V3 K) :
+    objTerm a p = V3.normSq p.1 + V3.normSq p.2 - 2 * V3.dot ((rotMat a).mulVec p.1) p.2 :=
+  Proofs.RotationAngles.objTerm_expand a (rotMat_proper a hx hy hz).left p
+
+example : objTerm (⟨3 / 5, 4 / 5, 1, 0, 1, 0⟩ : Angles Rat) (⟨0, 1, 0⟩, ⟨0, 1, 1⟩) = 1 + 2 - 2 * (3 / 5 + 4 / 5) := by
+  decide +kernel
+
+/-- **The objective is a sum of squared distances**: non-negative, and zero exactly when every rotated template
+atom that carries a bond sits ON its reference point (ordered fields: ℚ, ℝ). -/
+theorem C06_objective_nonneg {F : Type} [Field F] [LinearOrder F] [IsStrictOrderedRing F]
+    (a : Angles F) (pairs : List (V3 F × V3 F)) :
+    0 ≤ objective a pairs ∧ (objective a pairs = 0 ↔ ∀ p ∈ pairs, (rotMat a).mulVec p.1 = p.2) :=
+  ⟨Proofs.RotationAngles.objective_nonneg a pairs, Proofs.RotationAngles.objective_eq_zero_iff a pairs⟩
+
+/-- a quarter turn about z takes (1,0,0) to (0,1,0): objective 0 -/
+example : objective (⟨1, 0, 1, 0, 0, 1⟩ : Angles Rat) [(⟨1, 0, 0⟩, ⟨0, 1, 0⟩)] = 0 := by decide +kernel
+
+/-- the reference point of a connecting edge: the neighbour's ATOM if that residue has been built, else the
+neighbour RESIDUE, both relative to the own residue position -/
+theorem C06_objective_reference (built : Bool) (refAtomPos cgNeighbour cgOwn : V3 K) :
+    refCoord built refAtomPos cgNeighbour cgOwn = (if built then refAtomPos else cgNeighbour) - cgOwn := by
+  cases built <;> rfl
+
+example : refCoord true (⟨1, 2, 3⟩ : V3 Rat) ⟨5, 5, 5⟩ ⟨1, 1, 1⟩ = ⟨0, 1, 2⟩ ∧
+    refCoord false (⟨1, 2, 3⟩ : V3 Rat) ⟨5, 5, 5⟩ ⟨1, 1, 1⟩ = ⟨4, 4, 4⟩ := by decide +kernel
+
 
 end PolyplyVerif.C06
